@@ -107,6 +107,17 @@ theorem every_field_classified :
     ∀ sf ∈ Generated.structFields, ∀ f ∈ sf.2, fieldClassified sf.1 f = true := by
   decide +kernel
 
+open GoRes.Discipline in
+/-- the same for the loggers and the BadgerDB store and query store: `MemLogger`'s buffer only under
+its mutex; configuration fields written only by their setters -/
+theorem discipline_ext : ∀ a ∈ Generated.extAccesses, accOk a = true := by
+  decide +kernel
+
+open GoRes.Discipline in
+theorem every_ext_field_classified :
+    ∀ sf ∈ Generated.extStructFields, ∀ f ∈ sf.2, fieldClassified sf.1 f = true := by
+  decide +kernel
+
 /-- a function analysed as "entered with the mutex held" really is called only with it held -/
 theorem locked_entry_justified :
     ∀ c ∈ Generated.calls, Generated.entryLocked.contains c.1 = true → c.2.2 = "L" := by
